@@ -23,6 +23,7 @@
 #include <stdarg.h>
 #include <unistd.h>
 #include <signal.h>
+#include <sys/time.h>
 #include <math.h>
 #include <errno.h>
 #include <fcntl.h>
@@ -71,6 +72,7 @@ static FILE		*vh_out = NULL ;
 static long		vh_cases_run = 0 ;
 static int		vh_nsamples = 0 ;
 static int		vh_case_secs = 60 ;		/* wall watchdog per case */
+static int		vh_case_cpu_secs = 0 ;	/* > 0: CPU-time watchdog per case (ITIMER_VIRTUAL): load-independent, so it needs no confirmation run */
 static long		vh_viol_count = 0 ;
 
 /*------------------------------------------------------------------ PRNG */
@@ -192,6 +194,14 @@ static void vh_alarm (int sig)
 		}
 	_exit (97) ;
 }
+static void vh_cpu_alarm (int sig)
+{	(void) sig ;
+	if (vh_out)
+	{	fprintf (vh_out, "{\"t\":\"hang\",\"case\":%ld,\"kind\":\"cpu\",\"desc\":", vh_case_idx) ; vh_json_str (vh_out, vh_case_desc) ; fprintf (vh_out, "}\n") ;
+		vh_dying = 1 ; vh_flush_stats () ;
+		}
+	_exit (97) ;
+}
 /* logical (deterministic) hang: I/O callback budget exhausted */
 static void vh_logical_hang (const char *what)
 {	fprintf (vh_out, "{\"t\":\"hang\",\"case\":%ld,\"kind\":\"logical\",\"what\":", vh_case_idx) ; vh_json_str (vh_out, what) ;
@@ -225,7 +235,7 @@ static void vh_init (int argc, char **argv, const char *mon, const char *prop)
 		}
 	if (__sanitizer_set_death_callback) __sanitizer_set_death_callback (vh_death) ;
 	else { signal (SIGSEGV, vh_sigdeath) ; signal (SIGFPE, vh_sigdeath) ; signal (SIGBUS, vh_sigdeath) ; signal (SIGABRT, vh_sigdeath) ; signal (SIGILL, vh_sigdeath) ; }
-	signal (SIGALRM, vh_alarm) ;
+	signal (SIGALRM, vh_alarm) ; signal (SIGVTALRM, vh_cpu_alarm) ;
 	signal (SIGPIPE, SIG_IGN) ;
 	if (vh_only >= 0) vh_verbose = 1 ;
 }
@@ -241,6 +251,7 @@ static int vh_case (const char *fmt, ...)
 	vh_srand (vh_seed0 * 0x100000001b3ULL + vh_fnv (0, vh_mon, strlen (vh_mon)) + (uint64_t) idx * 0x9e3779b97f4a7c15ULL) ;
 	vh_cases_run++ ;
 	alarm (vh_case_secs) ;
+	if (vh_case_cpu_secs > 0) { struct itimerval itv ; memset (&itv, 0, sizeof (itv)) ; itv.it_value.tv_sec = vh_case_cpu_secs ; setitimer (ITIMER_VIRTUAL, &itv, NULL) ; }
 	if (vh_verbose) fprintf (stderr, "case %ld: %s\n", idx, vh_case_desc) ;
 	return 1 ;
 }
@@ -262,10 +273,12 @@ typedef struct
 	long fault_at ; int fault_kind, fault_persist ; long fired ;	/* fault schedule: first faulted call index (1-based); 0 = none */
 	int  nonseek ;				/* behave like a pipe: seek fails, length unknown */
 	sf_count_t accepted ;		/* highest byte the store ever accepted */
+	long fault_at2 ; int fault_kind2 ;	/* optional second single-shot fault point */
 } MEMF ;
 
 static inline int mv_fault (MEMF *m)
 {	if (m->budget > 0 && m->ncalls > m->budget) vh_logical_hang ("virtual I/O callback budget exhausted") ;
+	if (m->fault_at2 > 0 && m->ncalls == m->fault_at2) { m->fired++ ; return m->fault_kind2 ; }
 	if (m->fault_at <= 0) return 0 ;
 	if (m->ncalls == m->fault_at || (m->fault_persist && m->ncalls > m->fault_at)) { m->fired++ ; return m->fault_kind ; }
 	return 0 ;
